@@ -63,6 +63,15 @@ fn normalize_debug(s: &str) -> String {
     out
 }
 
+#[derive(Clone)]
+enum Op {
+    Dec(Vec<u8>),
+    /// reset(None)
+    ResetKeep,
+    /// reset(Some(x))
+    Reset(Option<u64>),
+}
+
 struct Outcome {
     verdict: Verdict,
     out: Vec<u8>,
@@ -125,6 +134,7 @@ fn fam_lzma(ctx: &CaseCtx, cov: &mut Cov) -> CaseOut {
         }
     };
     let mut size_in_effect = initial_size;
+    let mut ops: Vec<Op> = Vec::new();
     let cycles = rng.range(1, ctx.tier.pick(12, 200));
     let mut log: Vec<String> = Vec::new();
     for cycle in 0..cycles {
@@ -150,10 +160,12 @@ fn fam_lzma(ctx: &CaseCtx, cov: &mut Cov) -> CaseOut {
                         sut::guarded(|| dec.reset(Some(s))).ok();
                         size_in_effect = s;
                         log.push(format!("reset(Some({:?}))", s));
+                        ops.push(Op::Reset(s));
                     }
                     let sink = SharedSink::new();
                     let obs = sut::new_obs(u64::MAX);
                     let c = sut::raw_lzma_decompress(&mut dec, &data, ReaderKind::Slice, &sink, &obs);
+                    ops.push(Op::Dec(data.clone()));
                     cov.inc("history_decompress_verdict", c.verdict.is_ok() as u32);
                     log.push(format!("{} -> {}", OPS[op], c.verdict.short().chars().take(60).collect::<String>()));
                     if c.verdict.is_abnormal() {
@@ -164,6 +176,7 @@ fn fam_lzma(ctx: &CaseCtx, cov: &mut Cov) -> CaseOut {
                 3 => {
                     sut::guarded(|| dec.reset(None)).ok();
                     log.push("reset(None)".into());
+                    ops.push(Op::ResetKeep);
                 }
                 _ => {
                     let s = match rng.below(3) {
@@ -174,6 +187,7 @@ fn fam_lzma(ctx: &CaseCtx, cov: &mut Cov) -> CaseOut {
                     sut::guarded(|| dec.reset(Some(s))).ok();
                     size_in_effect = s;
                     log.push(format!("reset(Some({:?}))", s));
+                    ops.push(Op::Reset(s));
                 }
             }
         }
@@ -194,6 +208,10 @@ fn fam_lzma(ctx: &CaseCtx, cov: &mut Cov) -> CaseOut {
             size_in_effect = s;
         }
         log.push(format!("reset({:?})", arg));
+        match arg {
+            None => ops.push(Op::ResetKeep),
+            Some(a) => ops.push(Op::Reset(a)),
+        }
         let (ypayload, _, _) = &pool[rng.usize_below(pool.len())];
         let mut y = ypayload.clone();
         match rng.below(5) {
@@ -238,6 +256,60 @@ fn fam_lzma(ctx: &CaseCtx, cov: &mut Cov) -> CaseOut {
                 .map(|(x, _)| x.chars().take(40).collect::<String>())
                 .unwrap_or_default();
             out.warnings.push(format!("Debug output of reset LzmaDecoder differs from a fresh one near `{}`", field));
+            // The adaptive state differs. That is only a violation if some follow-up
+            // stream can tell: replay the recorded history on new decoders and look for one.
+            cov.name("debug_state_differs.searching_distinguishing_stream", 1);
+            let mut cands: Vec<Vec<u8>> = pool.iter().map(|p| p.0.clone()).collect();
+            for _ in 0..40 {
+                let n = rng.range(20, 600) as usize;
+                let mk = rng.chance(1, 2);
+                let pr = rich_program(&mut rng, n, mk);
+                if let Ok((pl, _, _)) = crate::refmodel::lzma::encode_program(&pr, props) {
+                    cands.push(pl);
+                }
+            }
+            for cand in &cands {
+                let mut a = match sut::raw_lzma_new(props.lc, props.lp, props.pb, dict, initial_size, None) {
+                    Ok(d) => d,
+                    Err(_) => break,
+                };
+                for op in &ops {
+                    match op {
+                        Op::Dec(d) => {
+                            let _ = sut::raw_lzma_decompress(&mut a, d, ReaderKind::Slice, &SharedSink::new(), &sut::new_obs(u64::MAX));
+                        }
+                        Op::ResetKeep => {
+                            let _ = sut::guarded(|| a.reset(None));
+                        }
+                        Op::Reset(x) => {
+                            let _ = sut::guarded(|| a.reset(Some(*x)));
+                        }
+                    }
+                }
+                let mut b = match sut::raw_lzma_new(props.lc, props.lp, props.pb, dict, size_in_effect, None) {
+                    Ok(d) => d,
+                    Err(_) => break,
+                };
+                let run2 = |d: &mut lzma_rs::decompress::raw::LzmaDecoder| {
+                    let sink = SharedSink::new();
+                    let c = sut::raw_lzma_decompress(d, cand, ReaderKind::Slice, &sink, &sut::new_obs(u64::MAX));
+                    Outcome { verdict: c.verdict, out: sink.bytes(), consumed: c.consumed }
+                };
+                let ra = run2(&mut a);
+                let rb = run2(&mut b);
+                out.evals += 1;
+                if !ra.same(&rb) {
+                    out.violate(
+                        "C14/lzma/reset-differs-from-new",
+                        format!(
+                            "state after reset differs from a fresh decoder (Debug near `{}`) and a follow-up stream tells them apart: reset decoder: {}; fresh decoder: {}; history: {}",
+                            field, ra.short(), rb.short(), log.iter().rev().take(10).rev().cloned().collect::<Vec<_>>().join(" ; ")
+                        ),
+                        J::obj().set("y_hex", J::s(crate::util::hex_trunc(cand, 2048))).set("history", J::Arr(log.iter().map(|s| J::s(s.as_str())).collect())),
+                    );
+                    return out;
+                }
+            }
         } else {
             cov.name("debug_state_identical_after_reset", 1);
         }
